@@ -68,10 +68,10 @@ def explore_combo(ck, ci, progs, tier, rng, stats, hists, meta):
     lockprogs, nlocks = sc.record_progs("base", progs)
     scheds, dls = sc.enumerate_schedules(ck, lockprogs, nlocks, 2, "c%d" % ci)
     stats["schedules_enumerated"] += len(scheds)
-    take = 90 if tier == "quick" else 1200
+    take = 90 if tier == "quick" else 400
     if len(scheds) > take:
         scheds = rng.sample(scheds, take)
-    scheds += sc.random_schedules(rng, lockprogs, 10 if tier == "quick" else 400, 5)
+    scheds += sc.random_schedules(rng, lockprogs, 10 if tier == "quick" else 120, 5)
     reports = sc.run_many("base", progs, scheds)
     for s, rep in zip(scheds, reports):
         stats["replays"] += 1
@@ -274,7 +274,7 @@ def run(tier):
     r2 = tlc("ConcGen", consts={"MaxLen": 2, "NThreads": 2, "WithSnapshot": "FALSE", "SharedIds": "{1, 4}"}, workers=4, timeout=600)
     ck.add_tlc("ConcGen (2 threads, <= 2 ops, ids {1,4})", r2)
     pool2 = sorted(r2.json_lines, key=lambda x: json.dumps(x, sort_keys=True))
-    combos = list(DIRECTED) + rng.sample(pool, 3 if tier == "quick" else 40) + rng.sample(pool2, 3 if tier == "quick" else 40)
+    combos = list(DIRECTED) + rng.sample(pool, 3 if tier == "quick" else 25) + rng.sample(pool2, 3 if tier == "quick" else 25)
     if tier == "thorough":
         r3 = tlc("ConcGen", consts={"MaxLen": 1, "NThreads": 3, "WithSnapshot": "FALSE"}, workers=4, timeout=600)
         ck.add_tlc("ConcGen (3 threads)", r3)
